@@ -60,6 +60,15 @@ fn m_new(start: MStart) -> Mapping<NameId, u32> {
 /// Replays a history on a fresh Mapping and a BTreeMap, compares every observation
 /// after the last operation. Returns the canonical state or the first disagreement.
 pub fn m_build(start: MStart, hist: &[MOp], ids: &[u32]) -> Result<(Vec<u32>, usize, usize), (String, String)> {
+    // a panic inside Mapping is a verdict about Mapping, not a failure of the harness
+    match guarded("mapping", || m_build_inner(start, hist, ids)) {
+        Ok(r) => r,
+        Err(Err(pi)) => Err((format!("panic:{}", pi.site), format!("Mapping panicked: {} at {}", pi.msg, pi.site))),
+        Err(Ok(_)) => Err(("panic".into(), "unexpected abort".into())),
+    }
+}
+
+fn m_build_inner(start: MStart, hist: &[MOp], ids: &[u32]) -> Result<(Vec<u32>, usize, usize), (String, String)> {
     let mut m = m_new(start);
     let mut r: BTreeMap<u32, u32> = BTreeMap::new();
     let mut max_ever = 0u32;
@@ -353,6 +362,15 @@ fn p_check_all(pool: &Pool<Vs>, r: &PRef, addrs: &mut Addrs) -> Result<(), (Stri
 /// Replays prefill + history on a fresh Pool; all references handed out so far are
 /// re-validated (address + content) after every operation.
 pub fn p_build(prefill: usize, hist: &[POp]) -> Result<Vec<usize>, (String, String)> {
+    // a panic inside Pool / Arena is a verdict about them, not a failure of the harness
+    match guarded("pool", || p_build_inner(prefill, hist)) {
+        Ok(r) => r,
+        Err(Err(pi)) => Err((format!("panic:{}", pi.site), format!("Pool panicked: {} at {}", pi.msg, pi.site))),
+        Err(Ok(_)) => Err(("panic".into(), "unexpected abort".into())),
+    }
+}
+
+fn p_build_inner(prefill: usize, hist: &[POp]) -> Result<Vec<usize>, (String, String)> {
     let pool: Pool<Vs> = Pool::new();
     let mut r = PRef {
         names: vec![],
@@ -1209,7 +1227,13 @@ pub fn run_c20(ctx: &Ctx) -> i32 {
                 return;
             }
             acc.count("cases");
-            check_c20(case, depth, (fi, idx, 0), acc);
+            // a panic of SolverCache code reached from the harness (not through Solver::solve) is a verdict
+            let guard = |what: &str, case: &Case, order: (usize, u64, u32), acc: &mut Acc, f: &dyn Fn(&Case, &mut Acc)| {
+                if let Err(Err(pi)) = guarded("cache", || f(case, acc)) {
+                    acc.violation(viol("C20", &format!("panic:{}", pi.site), format!("{what}: SolverCache panicked: {} at {}", pi.msg, pi.site), json!({"kind": "c20-guarded", "what": what, "case": case, "universe": case.u.describe(&case.p)}), order));
+                }
+            };
+            guard("call sequences", case, (fi, idx, 0), acc, &|c, a| check_c20(c, depth, (fi, idx, 0), a));
             // the same universe with every package answering hints = All (two hinted packages fetched
             // in either order)
             let mut hinted = case.clone();
@@ -1220,7 +1244,7 @@ pub fn run_c20(ctx: &Ctx) -> i32 {
             }
             if hinted.u != case.u {
                 acc.count("cases");
-                check_c20(&hinted, depth, (fi, idx, 1), acc);
+                guard("call sequences", &hinted, (fi, idx, 1), acc, &|c, a| check_c20(c, depth, (fi, idx, 1), a));
             }
             // ... and with every package answering an empty hint list (no solvable is hinted)
             let mut unhinted = case.clone();
@@ -1231,14 +1255,14 @@ pub fn run_c20(ctx: &Ctx) -> i32 {
             }
             if unhinted.u != case.u {
                 acc.count("cases");
-                check_c20(&unhinted, depth.min(2), (fi, idx, 5), acc);
+                guard("call sequences", &unhinted, (fi, idx, 5), acc, &|c, a| check_c20(c, depth.min(2), (fi, idx, 5), a));
             }
             if !case.u.unions.is_empty() {
-                check_c20_async_union(case, (fi, idx, 2), acc);
+                guard("union under completion orders", case, (fi, idx, 2), acc, &|c, a| check_c20_async_union(c, (fi, idx, 2), a));
             }
-            check_c20_inflight(case, (fi, idx, 3), acc);
+            guard("in-flight requests", case, (fi, idx, 3), acc, &|c, a| check_c20_inflight(c, (fi, idx, 3), a));
             if hinted.u != case.u {
-                check_c20_inflight(&hinted, (fi, idx, 4), acc);
+                guard("in-flight requests", &hinted, (fi, idx, 4), acc, &|c, a| check_c20_inflight(c, (fi, idx, 4), a));
             }
         });
         states += acc.get("cases");
@@ -1267,6 +1291,21 @@ pub fn replay_c20(v: &serde_json::Value) -> Vec<String> {
         let mut acc = Acc::default();
         check_c20_async_union(&case, (0, 0, 0), &mut acc);
         return acc.violations.iter().map(|v| v.signature.clone()).collect();
+    }
+    if v["kind"] == "c20-guarded" {
+        let mut acc = Acc::default();
+        let r = guarded("cache", || {
+            check_c20(&case, 2, (0, 0, 0), &mut acc);
+            if !case.u.unions.is_empty() {
+                check_c20_async_union(&case, (0, 0, 0), &mut acc);
+            }
+            check_c20_inflight(&case, (0, 0, 0), &mut acc);
+        });
+        let mut sigs: Vec<String> = acc.violations.iter().map(|v| v.signature.clone()).collect();
+        if let Err(Err(pi)) = r {
+            sigs.push(format!("panic:{}", pi.site));
+        }
+        return sigs;
     }
     if v["kind"] == "c20-inflight" {
         let mut acc = Acc::default();
